@@ -246,8 +246,21 @@ def htok_rules(ctx, rule, prog, hslots, cslots):
                   f"box line `BLO BHI` is stored as {box} ({err or ''}); expected [['BLO', 'BHI']]",
                   key="box-lo-hi", where=loc(rb, ln.node))
         mid = str((Poly.atom("BLO") + Poly.atom("BHI")).divide_by_monomial_const(2))
-        ctx.check(pt == [mid], f"{rule}.FORMULA", rb.site, "box centre = (lo + hi)/2",
-                  f"box centre evaluates to {pt}; expected [{mid}]", key="box-centre", where=loc(rb, ln.node))
+        if pt is None:
+            # the centre is not computed in the per-direction fragment: evaluate `point` from the box built there
+            for n in walk_no_nested(rb.node):
+                if isinstance(n, ast.Assign) and norm(n.targets[0]) == "point" and isinstance(n.value, ast.ListComp) and \
+                        len(n.value.generators) == 1 and norm(n.value.generators[0].iter) == "box" and \
+                        isinstance(n.value.generators[0].target, ast.Tuple) and len(n.value.generators[0].target.elts) == 2:
+                    a, b = [e.id for e in n.value.generators[0].target.elts]
+                    try:
+                        r = rules.expr_ratio(n.value.elt, {a: None, b: None},
+                                             atom=lambda x: {a: "BLO", b: "BHI"}.get(norm(x)))
+                        pt = [str(r.n.divide_by_monomial_const(1)) if r.is_poly() else str(r)]
+                    except Exception:
+                        pt = None
+        ctx.decide(pt == [mid], pt is not None, f"{rule}.FORMULA", rb.site, "box centre = (lo + hi)/2",
+                   f"box centre evaluates to {pt}; expected [{mid}]", key="box-centre", where=loc(rb, ln.node))
         # nesting: lv_boxes.append(box) per box, boxes.append(lv_boxes) per level
         txt = {norm(n) for n in walk_no_nested(rb.node) if isinstance(n, ast.Expr)}
         ok = {"lv_boxes.append(box)", "boxes.append(lv_boxes)", "lv_points.append(point)",
